@@ -183,7 +183,6 @@ func (r *recallWantlist) refresh(now time.Time, interval time.Duration) int {
 		wantCid := want.Cid
 		sentAt, ok := r.sentAt[wantCid]
 		if ok && now.Sub(sentAt) >= interval {
-			r.sent.Remove(wantCid)
 			r.pending.Add(wantCid, want.Priority, want.WantType)
 			refreshed++
 		}
